@@ -15,6 +15,7 @@ class Check:
         self.violations = []     # (name, replay path)
         self.known_hits = []
         self.inconclusive = []
+        self.timeouts = []
         self.functions = set(); self.models = set(); self.bounds = {}; self.assumptions = []
         self.samples = []; self.extra = {}
         self.solver_s = 0.0; self.queries = 0; self.paths = 0; self.twins = {'expected_sat': 0, 'got_sat': 0}
@@ -31,6 +32,7 @@ class Check:
         if len(self.samples) < 12 and verdict == 'holds' and detail is not None:
             self.samples.append({'obligation': name, 'engine': engine, **detail})
         if verdict == 'inconclusive': self.inconclusive.append(name)
+        if verdict == 'timeout': self.timeouts.append(name)
     def twin(self, got_sat):
         self.twins['expected_sat'] += 1
         if got_sat: self.twins['got_sat'] += 1
@@ -61,7 +63,7 @@ class Check:
             'functions_encoded': sorted(self.functions), 'library_models_executed': sorted(self.models),
             'bounds': self.bounds, 'solver_queries': self.queries, 'solver_s': round(self.solver_s, 2), 'paths_explored': self.paths,
             'unwinding_assertions': self.unwinding, 'reachability_twins': self.twins, 'native_replays': self.native_replays,
-            'inconclusive': self.inconclusive[:20], 'by_engine': {},
+            'inconclusive': self.inconclusive[:20], 'solver_timeouts_not_counted_as_discharged': self.timeouts[:30], 'by_engine': {},
             'exhaustive': False,
         }
         for o in self.obl:
@@ -78,7 +80,7 @@ class Check:
         json.dump(ev, open(p + '.tmp', 'w'), indent=1, default=str); os.replace(p + '.tmp', p)
         n_hold = cov['discharged']
         print(f'[{self.pid}] tier={self.tier} seed={self.seed}: {len(self.obl)} obligations, {n_hold} hold, {len(self.violations)} violations, '
-              f'{len(self.inconclusive)} inconclusive, solver {self.solver_s:.1f}s, wall {wall:.1f}s', flush=True)
+              f'{len(self.inconclusive)} inconclusive, {len(self.timeouts)} solver timeouts (not counted as discharged), solver {self.solver_s:.1f}s, wall {wall:.1f}s', flush=True)
         if self.violations: return 1
         if self.inconclusive:
             print(f'INCONCLUSIVE property={self.pid} obligations={self.inconclusive[:5]}', flush=True)
